@@ -449,7 +449,7 @@ func (w *World) loadContracts(file, pkgPath string) error {
 			cur.hasMod = true
 			for _, item := range splitTopComma(p.text) {
 				item = strings.TrimSpace(item)
-				if item == "" {
+				if item == "" || item == "nothing" {
 					continue
 				}
 				n, err := parseSpec(item)
@@ -534,6 +534,10 @@ func (w *World) loadContracts(file, pkgPath string) error {
 			if _, dup := w.contracts[cur.key]; dup {
 				return fmt.Errorf("%s:%d: duplicate contract for %s", file, lineNo, rest)
 			}
+			w.contracts[cur.key] = cur
+		case "ifacemethod", "fieldfunc":
+			k := map[string]string{"ifacemethod": "iface:", "fieldfunc": "fieldfunc:"}[kw]
+			cur = &Contract{pkg: pkgPath, short: k + rest, key: pkgPath + "." + k + rest, loops: map[string][]clause{}, asserts: map[string][]clause{}, file: file, line: lineNo}
 			w.contracts[cur.key] = cur
 		case "functype":
 			cur = &Contract{pkg: pkgPath, short: "functype:" + rest, key: pkgPath + ".functype:" + rest, loops: map[string][]clause{}, asserts: map[string][]clause{}, file: file, line: lineNo}
